@@ -12,6 +12,8 @@ CONSTANTS
   ProbeNs <- NoProbes
   ProbeUids <- UidsDeep
   MaxOld = 2
+  Transports <- TrBoth
+  ScmpTypes <- ScmpAll
 VIEW viewU
 INVARIANTS SentLeavesPool FieldCount PlaceholderType ReqFits ReqFitsConst NoShrink PoolCap StaysFull RespFits RespCount ProbeAnswered FreshCookiesOpen
 PROPERTIES SingleUse Answered Fresh
